@@ -678,7 +678,7 @@ def api_matches(kind, val, api):
 def seq_persist(lib, p11drv, seed, idx, codecdrv):
     rng = random.Random(seed * 86028121 + idx)
     p = P11(p11drv, lib)
-    cd = Codec(codecdrv)
+    cd = Codec(codecdrv) if codecdrv else None
     findings, stats = [], {'restarts': 0, 'objects': 0, 'files_decoded': 0, 'values_compared': 0, 'max_value': 0}
     ctr = [0]
 
@@ -780,7 +780,7 @@ def seq_persist(lib, p11drv, seed, idx, codecdrv):
                 if after and lab in after:
                     findings.append(('a destroyed object reappeared after %s' % how, len(p.trace) - 1))
         # K-codec: every object file decodes in the Coq model, re-encodes to the same bytes, and carries the API's values
-        if not findings:
+        if not findings and cd is not None:
             v = strip(view(p, s, big=True)) or {}
             bylabel = {}
             for lab, a in v.items():
@@ -817,7 +817,8 @@ def seq_persist(lib, p11drv, seed, idx, codecdrv):
                                 findings.append(('K-codec: attribute 0x%x of %s: the file decodes to %s:%s, C_GetAttributeValue returns %s' % (t, f, kd, val[:40], api[t][1][:40]), len(p.trace) - 1))
     finally:
         p.close()
-        cd.close()
+        if cd is not None:
+            cd.close()
     tr = [(l[:200], r) for (l, r) in p.trace]
     return {'i': idx, 'trace': tr, 'findings': findings[:3], 'model_dis': [], 'model_evals': stats['files_decoded'], 'stats': stats}
 
